@@ -62,6 +62,13 @@ pub enum G {
     RecRef,
     /// Root only.
     Lazy(Box<G>),
+    /// a.to_slice() — SliceInput kinds only
+    Slice(Box<G>),
+    /// any_ref() / select_ref! — BorrowInput kinds only
+    AnyRef,
+    SelectRef(Vec<u8>),
+    /// custom parser reporting InputRef::span_from(cursor..) — ExactSizeInput kinds only
+    SpanFrom,
 }
 
 #[derive(Clone, Debug)]
@@ -78,6 +85,10 @@ pub struct GenCfg {
     pub allow_spans: bool,
     pub allow_lookahead: bool,
     pub allow_lazy: bool,
+    /// capability-specific nodes (srcsim only): to_slice / any_ref+select_ref / span_from
+    pub allow_slice: bool,
+    pub allow_borrow: bool,
+    pub allow_exact: bool,
     /// Swarm mask over combinator families (bit i set = family i enabled in this case).
     pub mask: u64,
 }
@@ -96,6 +107,9 @@ impl GenCfg {
             allow_spans: rng.chance(3, 4),
             allow_lookahead: rng.chance(1, 2),
             allow_lazy: rng.chance(1, 10),
+            allow_slice: false,
+            allow_borrow: false,
+            allow_exact: false,
             // each family is on with probability ~3/4
             mask: rng.next_u64() | rng.next_u64(),
         }
@@ -125,8 +139,12 @@ impl<'r> Gen<'r> {
     }
     fn leaf(&mut self, consuming: bool) -> G {
         loop {
-            let k = self.rng.below(12);
+            let k = self.rng.below(if self.cfg.allow_borrow || self.cfg.allow_exact { 16 } else { 12 });
             let g = match k {
+                12 | 13 if self.cfg.allow_borrow => G::AnyRef,
+                14 if self.cfg.allow_borrow => G::SelectRef(self.symset()),
+                15 if self.cfg.allow_exact && !consuming => G::SpanFrom,
+                12..=15 => continue,
                 0..=3 => G::Just(self.sym()),
                 4 => {
                     let n = self.rng.range(2, 3);
@@ -248,7 +266,9 @@ impl<'r> Gen<'r> {
                 }
                 21 if self.fam(6) => G::Foldl(self.bx(d + 1, consuming), self.bx(d + 1, true)),
                 22 if self.fam(6) => G::Foldr(self.bx(d + 1, true), self.bx(d + 1, consuming)),
+                24 if self.cfg.allow_slice => G::Slice(self.bx(d + 1, consuming)),
                 23..=24 if self.cfg.allow_spans => G::MapSpan(self.bx(d + 1, consuming)),
+                25 if self.cfg.allow_slice => G::Slice(self.bx(d + 1, consuming)),
                 25 if self.cfg.allow_spans => G::ToSpan(self.bx(d + 1, consuming)),
                 26 if self.cfg.allow_state => G::StateProbe(self.bx(d + 1, consuming)),
                 27 if self.fam(7) => G::Filter(self.bx(d + 1, consuming), self.rng.below(16) as u8),
@@ -331,9 +351,9 @@ pub fn generate(rng: &mut Rng, cfg: &GenCfg) -> G {
 pub fn nullable(g: &G) -> bool {
     use G::*;
     match g {
-        Just(_) | Any | OneOf(_) | NoneOf(_) | Select(_) | Custom(..) => false,
+        Just(_) | Any | OneOf(_) | NoneOf(_) | Select(_) | Custom(..) | AnyRef | SelectRef(_) => false,
         JustSeq(v) => v.is_empty(),
-        End | Empty => true,
+        End | Empty | SpanFrom => true,
         Then(a, b) | IgnoreThen(a, b) | ThenIgnore(a, b) => nullable(a) && nullable(b),
         Delim(i, o, c) => nullable(i) && nullable(o) && nullable(c),
         PaddedBy(a, p) => nullable(a) && nullable(p),
@@ -346,7 +366,7 @@ pub fn nullable(g: &G) -> bool {
         Foldl(a, _) => nullable(a),
         Foldr(_, b) => nullable(b),
         MapSpan(a) | ToSpan(a) | StateProbe(a) | Filter(a, _) | TryMap(a, _) | Validate(a, _) | Labelled(a, ..) | Memo(a) | Ignored(a)
-        | To(a, _) | Lazy(a) => nullable(a),
+        | To(a, _) | Lazy(a) | Slice(a) => nullable(a),
         Recover(a, s) => {
             nullable(a)
                 || match s {
@@ -387,7 +407,7 @@ pub fn fixup(g: &mut G, nsym: u8) {
         }
         Choice(v) => v.iter_mut().for_each(|x| fixup(x, nsym)),
         OrNot(a) | Not(a) | Rewind(a) | MapSpan(a) | ToSpan(a) | StateProbe(a) | Filter(a, _) | TryMap(a, _) | Validate(a, _)
-        | Labelled(a, ..) | Memo(a) | Ignored(a) | To(a, _) | Lazy(a) => fixup(a, nsym),
+        | Labelled(a, ..) | Memo(a) | Ignored(a) | To(a, _) | Lazy(a) | Slice(a) => fixup(a, nsym),
         Rep { item, min, max, .. } => {
             fixup(item, nsym);
             guard(item, nsym);
@@ -447,14 +467,14 @@ fn leftmost_recref(g: &G) -> bool {
     use G::*;
     match g {
         RecRef => true,
-        Just(_) | JustSeq(_) | Any | OneOf(_) | NoneOf(_) | Select(_) | Custom(..) | End | Empty => false,
+        Just(_) | JustSeq(_) | Any | OneOf(_) | NoneOf(_) | Select(_) | Custom(..) | End | Empty | AnyRef | SelectRef(_) | SpanFrom => false,
         Then(a, b) | IgnoreThen(a, b) | ThenIgnore(a, b) => leftmost_recref(a) || (nullable(a) && leftmost_recref(b)),
         Delim(i, o, c) => leftmost_recref(o) || (nullable(o) && (leftmost_recref(i) || (nullable(i) && leftmost_recref(c)))),
         PaddedBy(a, p) => leftmost_recref(p) || (nullable(p) && leftmost_recref(a)) || (nullable(p) && nullable(a) && leftmost_recref(p)),
         Or(a, b) | AndIs(a, b) => leftmost_recref(a) || leftmost_recref(b),
         Choice(v) => v.iter().any(leftmost_recref),
         OrNot(a) | Not(a) | Rewind(a) | MapSpan(a) | ToSpan(a) | StateProbe(a) | Filter(a, _) | TryMap(a, _) | Validate(a, _)
-        | Labelled(a, ..) | Memo(a) | Ignored(a) | To(a, _) | Lazy(a) | Rec(a) => leftmost_recref(a),
+        | Labelled(a, ..) | Memo(a) | Ignored(a) | To(a, _) | Lazy(a) | Rec(a) | Slice(a) => leftmost_recref(a),
         Rep { item, .. } => leftmost_recref(item),
         Sep { item, sep, lead, .. } => leftmost_recref(item) || (*lead && leftmost_recref(sep)),
         Foldl(a, item) => leftmost_recref(a) || (nullable(a) && leftmost_recref(item)),
@@ -477,7 +497,7 @@ pub fn children(g: &G) -> Vec<&G> {
         Delim(a, b, c) => vec![a, b, c],
         Choice(v) => v.iter().collect(),
         OrNot(a) | Not(a) | Rewind(a) | MapSpan(a) | ToSpan(a) | StateProbe(a) | Filter(a, _) | TryMap(a, _) | Validate(a, _)
-        | Labelled(a, ..) | Memo(a) | Ignored(a) | To(a, _) | Lazy(a) | Rec(a) => vec![a],
+        | Labelled(a, ..) | Memo(a) | Ignored(a) | To(a, _) | Lazy(a) | Rec(a) | Slice(a) => vec![a],
         Rep { item, .. } => vec![item],
         Sep { item, sep, .. } => vec![item, sep],
         Recover(a, s) => match s {
@@ -496,7 +516,7 @@ pub fn children_mut(g: &mut G) -> Vec<&mut G> {
         Delim(a, b, c) => vec![a, b, c],
         Choice(v) => v.iter_mut().collect(),
         OrNot(a) | Not(a) | Rewind(a) | MapSpan(a) | ToSpan(a) | StateProbe(a) | Filter(a, _) | TryMap(a, _) | Validate(a, _)
-        | Labelled(a, ..) | Memo(a) | Ignored(a) | To(a, _) | Lazy(a) | Rec(a) => vec![a],
+        | Labelled(a, ..) | Memo(a) | Ignored(a) | To(a, _) | Lazy(a) | Rec(a) | Slice(a) => vec![a],
         Rep { item, .. } => vec![item],
         Sep { item, sep, .. } => vec![item, sep],
         Recover(a, s) => match s {
@@ -519,7 +539,7 @@ pub fn contains(g: &G, f: &dyn Fn(&G) -> bool) -> bool {
 /// Does the grammar need ValueInput (any/one_of/none_of/select!/nested_delimiters)?
 pub fn needs_value_input(g: &G) -> bool {
     contains(g, &|x| {
-        matches!(x, G::Any | G::OneOf(_) | G::NoneOf(_) | G::Select(_) | G::Not(_) | G::Lazy(_)) || matches!(x, G::Recover(_, Strat::Nested(..)))
+        matches!(x, G::Any | G::OneOf(_) | G::NoneOf(_) | G::Select(_) | G::Not(_) | G::Lazy(_) | G::Slice(_) | G::AnyRef | G::SelectRef(_) | G::SpanFrom) || matches!(x, G::Recover(_, Strat::Nested(..)))
     })
 }
 
@@ -601,6 +621,10 @@ pub fn sexpr(g: &G) -> String {
         Rec(a) => format!("(rec {})", sexpr(a)),
         RecRef => "$rec".into(),
         Lazy(a) => format!("(lazy {})", sexpr(a)),
+        Slice(a) => format!("(to_slice {})", sexpr(a)),
+        AnyRef => "any_ref".into(),
+        SelectRef(v) => format!("sel_ref[{}]", syms(v)),
+        SpanFrom => "span_from".into(),
     }
 }
 
@@ -627,11 +651,11 @@ pub fn sample(g: &G, rng: &mut Rng, nsym: u8, out: &mut Vec<u8>, fuel: &mut i64,
     match g {
         Just(s) => out.push(*s),
         JustSeq(v) => out.extend_from_slice(v),
-        Any => out.push(rng.below(nsym as u64) as u8),
-        OneOf(v) | Select(v) => out.push(*rng.pick(v)),
+        Any | AnyRef => out.push(rng.below(nsym as u64) as u8),
+        OneOf(v) | Select(v) | SelectRef(v) => out.push(*rng.pick(v)),
         NoneOf(v) => out.push(other(v, rng)),
         Custom(a, _) => out.push(*a),
-        End | Empty | Not(_) | Rewind(_) => {}
+        End | Empty | Not(_) | Rewind(_) | SpanFrom => {}
         Then(a, b) | IgnoreThen(a, b) | ThenIgnore(a, b) => {
             sample(a, rng, nsym, out, fuel, rec);
             sample(b, rng, nsym, out, fuel, rec);
@@ -693,7 +717,7 @@ pub fn sample(g: &G, rng: &mut Rng, nsym: u8, out: &mut Vec<u8>, fuel: &mut i64,
             sample(b, rng, nsym, out, fuel, rec);
         }
         MapSpan(a) | ToSpan(a) | StateProbe(a) | Filter(a, _) | TryMap(a, _) | Validate(a, _) | Labelled(a, ..) | Memo(a) | Ignored(a)
-        | To(a, _) | Lazy(a) => sample(a, rng, nsym, out, fuel, rec),
+        | To(a, _) | Lazy(a) | Slice(a) => sample(a, rng, nsym, out, fuel, rec),
         Recover(a, s) => {
             if rng.chance(2, 3) {
                 sample(a, rng, nsym, out, fuel, rec)
@@ -777,4 +801,9 @@ pub fn gen_input(g: &G, rng: &mut Rng, nsym: u8, max_len: usize) -> Vec<u8> {
 
 pub fn show_input(v: &[u8]) -> String {
     v.iter().map(|s| (b'a' + s) as char).collect()
+}
+
+/// Capabilities a grammar needs from its input kind: (SliceInput, BorrowInput, ExactSizeInput).
+pub fn needs_caps(g: &G) -> (bool, bool, bool) {
+    (contains(g, &|x| matches!(x, G::Slice(_))), contains(g, &|x| matches!(x, G::AnyRef | G::SelectRef(_))), contains(g, &|x| matches!(x, G::SpanFrom)))
 }
